@@ -25,6 +25,38 @@ use vh::*;
 /// alphabet of the exhaustive enumeration: `a`, CR, LF, the two bytes of `é`, and an invalid byte
 const LINES_ALPHABET: [u8; 6] = [b'a', b'\r', b'\n', 0xC3, 0xA9, 0xFF];
 
+/// everything some notion of "line end" or "white space" could treat specially — and which
+/// `LinesCodec` must leave alone: only LF ends a line, only one CR directly before it is stripped.
+/// ASCII white space and controls, DEL, NEL / NBSP (C2 85, C2 A0) and their bare continuation bytes,
+/// LS / PS (E2 80 A8/A9), ideographic space, BOM / ZWNBSP, zero-width space, information separators
+const SPECIALS: [&[u8]; 22] = [
+    b" ", b"\t", b"\x0b", b"\x0c", b"\0", b"\x7f", b"\xc2\x85", b"\xc2\xa0", b"\xe2\x80\xa8", b"\xe2\x80\xa9", b"\x85", b"\xa0", b"\xe3\x80\x80",
+    b"\xef\xbb\xbf", b"\xe2\x80\x8b", b"\x1c", b"\x1d", b"\x1e", b"\x1f", b"\x08", b"\x1a", b"\x1b",
+];
+
+/// units of the wide sweep: a letter, CR, LF, an invalid byte and every special
+fn wide_units() -> Vec<&'static [u8]> {
+    let mut v: Vec<&'static [u8]> = vec![b"a", b"\r", b"\n", b"\xff"];
+    v.extend(SPECIALS.iter().copied());
+    v
+}
+
+/// directed line-end shapes around one special: the special directly before LF / CR LF / end of file /
+/// alone on the line / doubled / after and before a CR
+fn special_shapes(text: &[u8], sp: &[u8]) -> Vec<Vec<u8>> {
+    let cat = |parts: &[&[u8]]| parts.concat();
+    vec![
+        cat(&[text, sp, b"\n", b"b"]),
+        cat(&[text, sp, b"\r\n", b"b\n"]),
+        cat(&[text, sp]),
+        cat(&[sp, b"\n"]),
+        cat(&[text, sp, sp, b"\n"]),
+        cat(&[text, b"\r", sp, b"\n"]),
+        cat(&[text, sp, b"\r"]),
+        cat(&[text, b"\n", sp, text, b"\n"]),
+    ]
+}
+
 fn all_strings(alphabet: &[u8], max_len: usize, f: &mut dyn FnMut(&[u8])) {
     fn rec(alphabet: &[u8], cur: &mut Vec<u8>, max_len: usize, f: &mut dyn FnMut(&[u8])) {
         f(cur);
@@ -275,6 +307,7 @@ fn random_text(rng: &mut Rng, max_units: usize) -> Vec<u8> {
             5 => v.extend_from_slice("€".as_bytes()),
             6 => v.extend_from_slice("😀".as_bytes()),
             7 => v.push(*rng.pick(&[0xFFu8, 0xC3, 0xA9, 0x80, 0xE2, 0xF0])),
+            8 => v.extend_from_slice(SPECIALS[rng.below(SPECIALS.len())]),
             _ => v.push(b'a' + rng.below(26) as u8),
         }
     }
@@ -293,6 +326,45 @@ fn gen_c15(a: &Args, w: &mut dyn Write) {
         n += 1;
         writeln!(w, "dec {}", hex(s)).unwrap();
     });
+    // (1a) the wide sweep: every sequence of up to 3 (thorough: 4) units over {a, CR, LF, FF} + every
+    // special (other ASCII white space and controls, NEL, NBSP, LS, PS, …), whole and through decode_eof
+    // directly; directed line-end shapes around every special and around EVERY byte value, whole and
+    // with one codec instance cut before the special / before the LF
+    {
+        let units = wide_units();
+        let idx: Vec<u8> = (0..units.len() as u8).collect();
+        let lw = if thorough { 4 } else { 3 };
+        let mut n = 0usize;
+        let mut head = |w: &mut dyn Write| {
+            if n % 8000 == 0 {
+                writeln!(w, "case dec-wide-{}", n / 8000).unwrap();
+            }
+            n += 1;
+        };
+        all_strings(&idx, lw, &mut |ix| {
+            let s: Vec<u8> = ix.iter().flat_map(|&i| units[i as usize].iter().copied()).collect();
+            head(w);
+            writeln!(w, "dec {}", hex(&s)).unwrap();
+            if ix.len() <= 3 {
+                writeln!(w, "chunkse {}", hex(&s)).unwrap();
+            }
+        });
+        let every_byte: Vec<Vec<u8>> = (0..=255u8).map(|b| vec![b]).collect();
+        let specials: Vec<&[u8]> = SPECIALS.iter().copied().chain(every_byte.iter().map(|v| &v[..])).collect();
+        for sp in specials {
+            for text in [&b""[..], b"a", b"key:", "é".as_bytes()] {
+                for s in special_shapes(text, sp) {
+                    head(w);
+                    writeln!(w, "dec {}", hex(&s)).unwrap();
+                    writeln!(w, "chunkse {}", hex(&s)).unwrap();
+                    let cut = text.len().min(s.len());
+                    writeln!(w, "chunks {} {}", hex(&s[..cut]), hex(&s[cut..])).unwrap();
+                    let cut2 = (text.len() + sp.len()).min(s.len());
+                    writeln!(w, "chunks {} {}", hex(&s[..cut2]), hex(&s[cut2..])).unwrap();
+                }
+            }
+        }
+    }
     // (1b) ONE codec instance across several calls, the buffer growing in pieces: every two- and
     // three-piece split (empty pieces included) of every string up to the bound; `chunkse`: the last
     // piece is not decoded before `decode_eof` (which then meets complete lines, valid and invalid)
@@ -1584,6 +1656,7 @@ fn long_stream(rng: &mut Rng, sel: Sel) -> Vec<u8> {
                 match rng.below(12) {
                     0 => v.push(0xFF),
                     1 => v.extend_from_slice("é".as_bytes()),
+                    2 | 3 => v.extend_from_slice(SPECIALS[rng.below(SPECIALS.len())]),
                     _ => {}
                 }
                 if rng.chance(1, 4) {
@@ -1774,6 +1847,30 @@ fn gen_c13(a: &Args, w: &mut dyn Write) {
                 }
             }
         });
+    }
+    // (W) LinesCodec under Framed and everything a line end / white space could be confused with:
+    // the directed shapes around every special, every composition into chunks (a Pending in some)
+    for (si, sp) in SPECIALS.iter().enumerate() {
+        for text in [&b""[..], b"a"] {
+            for (k, st) in special_shapes(text, sp).into_iter().enumerate() {
+                if st.len() > 7 {
+                    // longer shapes: whole, byte by byte, and cut before / after the special
+                    let whole = vec![st.clone()];
+                    let bytes: Vec<Vec<u8>> = st.iter().map(|b| vec![*b]).collect();
+                    let c = text.len().min(st.len());
+                    let c2 = (text.len() + sp.len()).min(st.len());
+                    for chunks in [whole, bytes, vec![st[..c].to_vec(), st[c..].to_vec()], vec![st[..c2].to_vec(), st[c2..].to_vec()]] {
+                        let chunks: Vec<Vec<u8>> = chunks.into_iter().filter(|c| !c.is_empty()).collect();
+                        emit_c13(w, &mut id, Sel::Lines, "special", &script_with(&chunks, &[]), chunks.len() + 6);
+                    }
+                    continue;
+                }
+                for (ci, chunks) in compositions(&st).into_iter().enumerate() {
+                    let ins = if (si + k + ci) % 4 == 0 { vec![(ci % (chunks.len() + 1), Rd::Pending)] } else { vec![] };
+                    emit_c13(w, &mut id, Sel::Lines, "special", &script_with(&chunks, &ins), chunks.len() + 6);
+                }
+            }
+        }
     }
     // (S) length sweep for LinesCodec under Framed: the newline of the first line at every offset
     // 0..=600 and around 1024, 2048, 4096, 8192, 9000, a second line behind it; delivered in chunks of
